@@ -220,8 +220,9 @@ static void text_reporter_finish_suite(TestReporter *reporter, const char *file,
             memo->printer(RESET);
         }
     } else {
-        char buf[1000];
-        char prepend[100];
+        /* room for the suite name and for what text_reporter_print_results() adds to it */
+        char *buf = (char *)malloc(strlen(name) + 1000);
+        char *prepend = (char *)malloc(strlen(name) + 100);
 
         sprintf(prepend, "  \"%s\": ", name);
         text_reporter_print_results(buf, prepend,
@@ -252,6 +253,8 @@ static void text_reporter_finish_suite(TestReporter *reporter, const char *file,
                 memo->printer("%s.\n", buf);
             }
         }
+        free(prepend);
+        free(buf);
     }
 }
 
